@@ -310,13 +310,15 @@ def job_history(p: Dict[str, Any]) -> Dict[str, Any]:
                 d_all.append(f"probe {name}: {val}")
         d_new = [x for x in d_all if x not in prev_diff]  # what THIS event introduced
         prev_diff = d_all
+        # canonical state: what differs from the initial snapshot, with generated names normalised (the same
+        # leak under a different generated function name is the same state)
         steps.append({"event": ev, "outcome": outcome, "diff": d_new,
-                      "state": digest([cur["ns"], cur["conv"], cur["nnx"], cur["eqx"], cur["probes"]])[:14]})
+                      "state": digest(sorted(_norm(x) for x in d_all))[:14]})
         if [x for x in d_all if not x.startswith("probe jit_helper_after_conversion")]:
             dirty = True  # process-wide state changed (an event-local poisoned jit helper is not process state)
     retire = bool(dirty and not _try_repair(w))
     return {"steps": steps, "_retire": retire,
-            "init_state": digest([s_init["ns"], s_init["conv"], s_init["nnx"], s_init["eqx"], s_init["probes"]])[:14]}
+            "init_state": digest([])[:14]}
 
 
 def _try_repair(w) -> bool:
